@@ -8,7 +8,6 @@ namespace Amshan.Hdlc
 open Amshan.Gen
 
 -- lets `decide` settle the concrete failing examples of the primitives in `Props/C14Hdlc.lean`
-deriving instance DecidableEq for Except
 
 /-! ### the partial primitives, when guarded -/
 
